@@ -188,9 +188,23 @@ func runRW(sc *qScenario) (res qResult) {
 			}
 			return 0
 		}
-		if st.Op == "get" {
+		// the copies of a "get" step say who holds them ("p@<ts>", "b<i>@<ts>"); those of an "incr" step are integers
+		// (100+ts on the owner, 200*(i+1)+ts on backup i)
+		valOf := func(pos int, ts int64) []byte {
+			if st.Op == "incr" {
+				if pos == 0 {
+					return []byte(fmt.Sprintf("%d", 100+ts))
+				}
+				return []byte(fmt.Sprintf("%d", int64(200*pos)+ts))
+			}
+			if pos == 0 {
+				return []byte(fmt.Sprintf("p@%d", ts))
+			}
+			return []byte(fmt.Sprintf("b%d@%d", pos-1, ts))
+		}
+		if st.Op == "get" || st.Op == "incr" {
 			if st.Local != nil {
-				if err := owner.DB.VerifDMap().VerifPutCopy(partitions.PRIMARY, name, key, []byte(fmt.Sprintf("p@%d", *st.Local)), ttlOf(0), *st.Local); err != nil {
+				if err := owner.DB.VerifDMap().VerifPutCopy(partitions.PRIMARY, name, key, valOf(0, *st.Local), ttlOf(0), *st.Local); err != nil {
 					res.Env = "building the local copy: " + err.Error()
 					return
 				}
@@ -199,7 +213,7 @@ func runRW(sc *qScenario) (res qResult) {
 				if ts == nil || i >= len(kr.Backups) {
 					continue
 				}
-				if err := cl.Members[kr.Backups[i]].DB.VerifDMap().VerifPutCopy(partitions.BACKUP, name, key, []byte(fmt.Sprintf("b%d@%d", i, *ts)), ttlOf(1+i), *ts); err != nil {
+				if err := cl.Members[kr.Backups[i]].DB.VerifDMap().VerifPutCopy(partitions.BACKUP, name, key, valOf(1+i, *ts), ttlOf(1+i), *ts); err != nil {
 					res.Env = "building a backup copy: " + err.Error()
 					return
 				}
@@ -226,6 +240,16 @@ func runRW(sc *qScenario) (res qResult) {
 			ob.Res = errEnum(err)
 			if err != nil {
 				ob.Err = err.Error()
+			}
+		case "incr":
+			c, cancel := context.WithTimeout(ctx, 20*time.Second)
+			n, err := dm.Incr(c, key, 1)
+			cancel()
+			ob.Res = errEnum(err)
+			if err != nil {
+				ob.Err = err.Error()
+			} else {
+				ob.Val = fmt.Sprintf("%d", n)
 			}
 		case "get":
 			c, cancel := context.WithTimeout(ctx, 20*time.Second)
